@@ -20,7 +20,9 @@ Record snap := {
   sn_avail : list nat;
   sn_wait : wobs
 }.
-Record case := { c_w : workload; c_fx : fixes; c_trace : list (action * snap) }.
+(* c_refused: the submissions that Scheduler.submit refused with ValueError; for those jobs j_deps holds
+   the requests of the workload description (the Job object was not kept) *)
+Record case := { c_w : workload; c_fx : fixes; c_trace : list (action * snap); c_refused : list nat }.
 
 Definition op_matches (o : opk) (p : pcT) : bool :=
   match o, p with
@@ -94,7 +96,10 @@ Fixpoint replay (W : workload) (fx : fixes) (s : state) (tr : list (action * sna
 
 Definition first_bad (c : case) : option nat := replay (c_w c) (c_fx c) (init (c_w c)) (c_trace c) 0.
 Definition check_case (c : case) : bool :=
-  wf (c_w c) && match first_bad c with None => true | Some _ => false end.
+  wf (c_w c) && match first_bad c with None => true | Some _ => false end
+  (* exactly the jobs that do not fit are refused: the others were accepted by the guard of LSubmit
+     during the replay, the refused ones must fail `fits` *)
+  && forallb (fun j => negb (fits (c_w c) j)) (c_refused c).
 
 (* debugging aid: the model's observables after each recorded step *)
 Definition obs_of (W : workload) (s : state) :=
